@@ -203,10 +203,20 @@ func body(c *sched.Ctl, cs Case, v *ev.Verdict) {
 		fail("ccall:panic", "CallConcurrently panicked for %d functions (%d nil): %s", len(cs.Fns), countNil(cs.Fns), firstLine(p))
 	} else if !callReturned {
 		blocked := false
+		var realErr error
 		for _, st := range sts {
 			if st.entered > 0 && !st.returned {
 				blocked = true
 			}
+			if st.returned && st.err != nil && st.err != context.Canceled {
+				realErr = st.err
+			}
+		}
+		if realErr != nil {
+			// a function has returned an error other than context.Canceled (and finished its
+			// bookkeeping: everything is quiescent): the call must return such an error now,
+			// whatever the other functions are doing
+			fail("ccall:error-not-propagated", "CallConcurrently is still blocked at full quiescence although a function returned %v (other functions still running: %v)", realErr, blocked)
 		}
 		if !blocked || callerCancelled {
 			fail("ccall:call-blocked", "CallConcurrently is still blocked at full quiescence (caller cancelled=%v, some function still running=%v)", callerCancelled, blocked)
